@@ -36,6 +36,7 @@ def check_sanitizer(ctx):
     seen = set()
     shapes = set()
     sites = set()
+    unrecognised = None
 
     def ob(ok, line, construct, detail):
         nonlocal ok_all
@@ -128,9 +129,22 @@ def check_sanitizer(ctx):
                 ob(True, line, 'return ' + U(en.expand(v))[:60],
                    'every collected line followed by a newline')
         if acc is None and not (is_const(v) and isinstance(v.value, str)):
-            ob(False, line, 'return ' + U(en.expand(v))[:60],
-               'the help-text formatter returns something that is not a '
-               "'#' constant or a newline-join of collected lines")
+            full = en.expand(v)
+            raw = f.params[0] if f.params else None
+            # positive evidence: the caller's text itself (or pieces of it
+            # that were never given a '#') is handed back
+            direct = isinstance(full, ast.Name) and full.id == raw or (
+                isinstance(full, ast.Call) and method_call(full) and U(
+                    method_call(full)[0]) == raw) or (
+                isinstance(full, (ast.BinOp, ast.JoinedStr)) and raw in {
+                    x.id for x in ast.walk(full) if isinstance(x, ast.Name)}
+                and '#' not in U(full))
+            if direct:
+                ob(False, line, 'return ' + U(full)[:60],
+                   'the help-text formatter returns the description itself '
+                   '(%s), not #-prefixed lines' % U(full)[:50])
+                continue
+            unrecognised = unrecognised or (line, U(full)[:80])
             continue
         shapes.add(trailing)
         if acc is None:
@@ -186,6 +200,13 @@ def check_sanitizer(ctx):
                 ob(False, ev.line, U(ev.node)[:80],
                    'unrecognised way of adding a line')
     ctx.count(len(t.paths))
+    if unrecognised is not None and ok_all:
+        raise AnalysisError(
+            'the help-text formatter %s returns `%s` (line %d): not one of '
+            'the shapes this analysis reads (a # constant, a newline-join '
+            'of collected lines); whether every line it produces starts '
+            'with # is not decided' % (f.qual, unrecognised[1],
+                                       unrecognised[0]))
     if ok_all:
         ctx.floor('C17.SANITIZER', len(sites), 2, 'line insertions')
     f.sanitized_shapes = shapes or {False}
@@ -545,6 +566,7 @@ def check_json(ctx):
         prog, modules={GEN}, classes=False, exclude={sec.qual}),
         max_depth=4)
     okw = False
+    n_json_writes = 0
     for p in ti.paths:
         is_json = any(c.kind == 'test' and c.pol and isinstance(
             c.expr, ast.Compare) and 'output_format' in U(c.expr)
@@ -555,6 +577,7 @@ def check_json(ctx):
             if ev.kind != 'call' or not method_call(ev.node, 'writelines') \
                     or not ev.node.args:
                 continue
+            n_json_writes += 1
             a = ti.expand(ev.node.args[0])
             if not (isinstance(a, (ast.Tuple, ast.List)) and len(
                     a.elts) == 3):
@@ -574,6 +597,12 @@ def check_json(ctx):
                         isinstance(x, Lit) for x in s1[0].sep) and \
                     txt(s1[0].sep).strip() == ',':
                 okw = True
+    if not okw and not n_json_writes:
+        raise AnalysisError(
+            'the sample writer %s has no path that tests output_format '
+            "against 'json' and writes lines: how the JSON sample is put "
+            'together is not one of the shapes this analysis reads'
+            % inner.qual)
     ctx.ob('C17.JSON', okw, ctx.where(inner.module, inner.node), inner.qual,
            'JSON document', 'members joined by commas inside one object'
            if okw else 'the JSON sample is not one object of comma-joined '
@@ -628,6 +657,12 @@ def check_every(ctx):
                 v.args[0].id.startswith('SYM_e')
         if not ok and bad is None:
             bad = (p, fmtc)
+    if bad is None and n < 2:
+        raise AnalysisError(
+            'the section formatter %s has no path on which a loop over the '
+            'sections and one over their defaults formats an entry under a '
+            'test of output_format: how entries are produced is not one of '
+            'the shapes this analysis reads' % sec.qual)
     ctx.ob('C17.EVERY', bad is None and n >= 2, W, sec.qual,
            'one entry per registered default (%d element paths)' % n,
            'every default of every section is formatted and yielded exactly '
